@@ -315,6 +315,16 @@ class Gen:
             vals = list(scope["lastvals"][acc])
             self.features.add("identical-setup-repeated")
         scope.setdefault("lastvals", {})[acc] = list(vals)
+        if force_val is None and rng.random() < 0.08:
+            # a default configuration written first and overridden by the real one before anything is launched (two setups
+            # in a row, only pure arithmetic in between)
+            dvals = [self.pick_val(scope, ind) for _ in fields]
+            ds = self.fresh("s")
+            dparams = ", ".join(f'"{f}" = {v} : i32' for f, v in zip(fields, dvals))
+            self.emit(ind, f'{ds} = accfg.setup "{acc}" to ({dparams}) : !accfg.state<"{acc}">')
+            if rng.random() < 0.5:
+                self.arith(scope, ind)
+            self.features.add("setup-overridden-before-launch")
         s = self.fresh("s")
         params = ", ".join(f'"{f}" = {v} : i32' for f, v in zip(fields, vals))
         prev = scope["states"].get(acc)
